@@ -21,6 +21,8 @@ type seg struct {
 	upper  bool // hex case
 	val    ssa.Value
 	note   string
+	fr     *frame     // deep evaluator: the frame val lives in
+	origin *hexOrigin // deep evaluator: what a hex group prints
 }
 
 func (s seg) String() string {
